@@ -99,8 +99,8 @@ CLAIMED = {
  "C03": dict(
     text="Machine-checked: any two lower-triangular factors of the same matrix give the same whitened quadratic form and the same squared diagonal product, so the value reported does not depend on the "
          "factorisation algorithm. Pairwise comparison of the implementation's dense / quasiseparable / Kalman solvers (log probability, normalisation, covariance, variance, samples for a key, triangular product/solve) "
-         "and correspondence of the Kalman recursion's Gallina model with the implementation and with the Cholesky diagonal (s_k = c_k^2).",
-    note="Trusted: as C01. the Kalman recursion is proved to be the LDU elimination of the covariance of its state-space model for arbitrary tables (innovation variances = pivots, sum v^2/s = y^T S^-1 y, prod s = det S), and that covariance is shown equal to to_symm_qsm + noise for time-invariant models (constant observation vector, commuting transitions, symmetric Pinf), on abstract generators; uniqueness of the lower-triangular factor with positive diagonal (solver-independent samples / dot_triangular) is a theorem (chol_unique); the conditional process is compared solver against solver in 8 conditioning modes.",
+         "and correspondence of the Kalman solver's Gallina model (table order included) with the implementation and with the Cholesky diagonal of the dense covariance in sweep order.",
+    note="Trusted: as C01. the Kalman recursion is proved to be the LDU elimination of the covariance of its state-space model for arbitrary tables (innovation variances = pivots, sum v^2/s = y^T S^-1 y, prod s = det S), and in the order KalmanSolver sweeps (last datum first) that covariance is proved to be the matrix of to_symm_qsm + noise conjugated by the reversal permutation for EVERY kernel record with symmetric Pinf (kalman_solver_is_quasisep, kalman_solver_logp; also end to end for the regenerated built-in kernels), so Kalman's log probability and normalisation are those of the other two solvers; in forward order the same holds for time-invariant models only; uniqueness of the lower-triangular factor with positive diagonal (solver-independent samples / dot_triangular) is a theorem (chol_unique); the conditional process is compared solver against solver in 8 conditioning modes.",
     technique="Coq proof (factor-independence of the Gaussian quantities) + correspondence of the Kalman model",
     ref="DESIGN.md section 6, C03"),
  "C12": dict(
